@@ -1,5 +1,7 @@
 import MLPE.Proofs.Safe
 import MLPE.Proofs.Retry
+import MLPE.Proofs.Budget
+import MLPE.Proofs.PlainDemo
 
 /-!
 # C12 — retry and default policy is applied exactly as configured
@@ -289,5 +291,41 @@ theorem C12_oneof_attempts (P : Program) (val : Node → Option Val) (hone : One
   · intro n kw hm
     have a := hall _ hm
     exact ⟨a.1, a.2.2⟩
+
+end MLPE.Eng
+
+/-! ### Over a whole run, in any pipeline (all programs, all schedules) — `Proofs/Budget.lean` -/
+
+namespace MLPE.Eng
+open MLPE
+
+/-- **C12, every program, every schedule**: every invocation of a node body that any execution ever makes — in a plain
+pipeline, inside a one-of candidate, in a restarted recurrent subgraph, after any interleaving — is attempt number `k` with
+`1 ≤ k ≤ attempts`: a node is never invoked more often than configured -/
+theorem C12_every_body_call_is_within_the_budget (P : Program) (s : St) (log : List Obs) (h : Exec P s log)
+    (n : Node) (inv k : Nat) (kw : Kwargs) (hm : Obs.body n inv k kw ∈ log) :
+    1 ≤ k ∧ k ≤ (P.cfg n).attemptsEff :=
+  (budget_exec h).2 _ hm
+
+/-- … and `get_default` is called only for a node that opts in with `use_default = True` (also the forced default of a
+recurrent destination whose iterations are exhausted) -/
+theorem C12_default_only_for_nodes_that_opt_in (P : Program) (s : St) (log : List Obs) (h : Exec P s log)
+    (n : Node) (kw : Kwargs) (hm : Obs.dflt n kw ∈ log) : (P.cfg n).useDefault = true :=
+  (budget_exec h).2 _ hm
+
+/-- a task that sleeps before a retry has attempts left: the attempt that follows the delay is within the budget -/
+theorem C12_sleeping_task_has_attempts_left (P : Program) (s : St) (log : List Obs) (h : Exec P s log)
+    (t : Nat) (tk : Task) (d : DagRef) (n : Node) (force : Bool) (k : Nat) (kw : Kwargs) (inv : Nat) (below : List Frame)
+    (htk : s.tasks[t]? = some tk) (hf : tk.frames = .node d n force (.sleep k kw inv) :: below) :
+    k + 1 ≤ (P.cfg n).attemptsEff := by
+  have := (stack_ok (budget_exec h).1 htk)
+  rw [hf] at this
+  exact this.head.2.2
+
+/-- non-vacuity: in the demo run of the diamond node 1 is invoked (attempt 1, which fails) and then sleeps with an attempt left -/
+example : (execLog demoDiamond init [] demoSchedule).map (fun r =>
+      (r.2.any (fun o => match o with | .body 1 0 1 _ => true | _ => false),
+       r.1.tasks.any (fun tk => match tk.frames with | .node _ 1 _ (.sleep 1 _ _) :: _ => true | _ => false))) =
+    some (true, true) := by decide +kernel
 
 end MLPE.Eng
